@@ -698,6 +698,23 @@ def check_verdicts(case, ctx):
     ctx.check(bool(v_eq) == bool(v_tp) and bool(v_in) == bool(v_cp), "constraint_aliases", f"{v_eq} {v_tp} {v_in} {v_cp}")
     ctx.check(bool(v_ph) == (bool(v_tp) and bool(v_cp)), "is_physical_conjunction", f"{v_ph} {v_tp} {v_cp}")
 
+    # the SAME object asked again after the global tolerance changed: the verdict is that of the tolerance in force now
+    atol2 = float(min(1e-2, max(1e-15, atol * (1e3 if reps.pick(repr(hs.tolist()), 2) else 1e-3))))
+    Settings.set_atol(atol2)
+    try:
+        w_tp, w_cp, w_ph = lind.is_tp(), lind.is_cp(), lind.is_physical()
+    finally:
+        Settings.set_atol(1e-13)
+    f_eq = _expected(eq_def, eq_def, atol2)
+    f_in = _expected(in_def - noise, in_def + noise, atol2)
+    if f_eq is not None:
+        ctx.check(bool(w_tp) == f_eq, "is_tp:same_object_after_global_atol_changed", f"is_tp={w_tp} defect {eq_def:.3e} atol now {atol2:.3e} (was {atol:.3e})")
+    if f_in is not None:
+        ctx.check(bool(w_cp) == f_in, "is_cp:same_object_after_global_atol_changed", f"is_cp={w_cp} defect {in_def:.3e} atol now {atol2:.3e} (was {atol:.3e})")
+        if e_in is not None and f_in != e_in:
+            ctx.label("verdict-flips-with-global-atol")
+    ctx.check(bool(w_ph) == (bool(w_tp) and bool(w_cp)), "is_physical_conjunction:after_global_atol_changed", f"{w_ph} {w_tp} {w_cp}")
+
     # constructor raises exactly when not physical at the global tolerance
     if e_eq is not None and e_in is not None:
         exp = e_eq and e_in
